@@ -352,6 +352,18 @@ def systematic_corner():
         G = E + [derived(E, "w1", [2], "window", width=1, start=0, table=_tbl(E, [2], 1, 0))]
         out.append(case(G, cross([1, 2, 3], [1], [K("MinimumTrials", k=4)]), "B", ["early-start-over-complex", "implied"],
                         "cor-early-a%d-w1-implied" % a_n))
+    # two complex-window factors in the encoding, the strided one listed first (variable layout of the second depends on it)
+    V = [basic("a", 2), basic("b", 2)]
+    V.append(derived(V, "s2", [1], "window", width=1, stride=2, table=[[[1]], [[2]]]))
+    V.append(derived(V, "tb", [2], "transition", table=eq_table(V, [2], 2)))
+    V.append(derived(V, "s3", [2], "window", width=2, stride=3, table=eq_table(V, [2], 2)))
+    out.append(case(V, cross([1, 2, 3, 4], [1, 2], [K("ExactlyK", k=1, f=3, l=1), K("ExactlyK", k=1, f=4, l=1)]), "B",
+                    ["two-complex", "stride-first"], "cor-two-complex-s2-tb"))
+    out.append(case(V, cross([1, 2, 4, 3], [1, 2], [K("ExactlyK", k=1, f=3, l=1), K("ExactlyK", k=1, f=4, l=1)]), "B",
+                    ["two-complex", "stride-last"], "cor-two-complex-tb-s2"))
+    out.append(case(V, cross([1, 2, 5, 4, 3], [1, 2], [K("ExactlyK", k=1, f=3, l=1), K("ExactlyK", k=1, f=4, l=1), K("ExactlyK", k=1, f=5, l=2),
+                                                     K("MinimumTrials", k=6)]), "B",
+                    ["two-complex", "three-complex"], "cor-three-complex"))
     # MinimumTrials below the crossing size, equal to it, 1
     for m in (1, 3, 4):
         out.append(case(F, cross(full, [1, 2], [K("MinimumTrials", k=m)]), "B", ["MinimumTrials", "small"], "cor-min%d" % m))
